@@ -4,13 +4,21 @@
    under IQResultRouteLock, one channel operation, one handler call); any sequence of
    actions is a schedule.  Channels are Go channels with a one-slot buffer: sending on
    a closed channel or closing twice is a panic, sending on a full buffer blocks.
+   Only a response (result/error) is looked up among the pending requests: a request
+   (get/set) that carries the id of a pending request is routed like any other packet.
+   SendIQ refuses an id that is still awaiting its response (nothing registered, nothing
+   written); the entry of a request whose context has ended may be replaced.
    Executable definitions only. *)
 From Coq Require Import List ZArith NArith Bool.
 From XV Require Import Lib.Sx.
 Import ListNotations.
 
 Definition iqid := N.
-Definition resp := (iqid * N)%type.      (* a result/error IQ: its id and a tag telling copies apart *)
+(* an inbound IQ: its id, a tag telling copies apart, and whether it is a request (get/set)
+   rather than a response (result/error) *)
+Record resp := { rid : iqid; rtag : N; rreq : bool }.
+Definition result (i : iqid) (v : N) : resp := {| rid := i; rtag := v; rreq := false |}.
+Definition request (i : iqid) (v : N) : resp := {| rid := i; rtag := v; rreq := true |}.
 
 Record chst := {
   c_owner : iqid;            (* id the request was registered under *)
@@ -34,16 +42,17 @@ Record cst := {
   chans : list chst;
   routers : list rthread;
   ordinary : list resp;        (* packets handed to the ordinary routes *)
-  arrived : list resp;         (* every response that has arrived (ghost) *)
+  arrived : list resp;         (* every IQ that has arrived (ghost) *)
+  refused : list nat;          (* request slots whose SendIQ was refused: id still pending *)
   panicked : bool }.
 
 Definition c_init : cst :=
-  {| table := []; chans := []; routers := []; ordinary := []; arrived := []; panicked := false |}.
+  {| table := []; chans := []; routers := []; ordinary := []; arrived := []; refused := []; panicked := false |}.
 
 Inductive act :=
-| ARegister (i : iqid)        (* SendIQ -> NewIQResultRoute: new channel, table[i] := it *)
+| ARegister (i : iqid)        (* SendIQ -> newIQResultRoute: new channel, table[i] := it; refused if i is still pending *)
 | AUnregister (c : nat)       (* SendIQ: the write failed, the route is removed again (if still this one) *)
-| AArrive (r : resp)          (* a response arrives on the receive path: a routing goroutine starts *)
+| AArrive (r : resp)          (* an IQ (response or request) arrives on the receive path: a routing goroutine starts *)
 | ARouter (k : nat)           (* routing goroutine k performs its next atomic step *)
 | ARecv (c : nat)             (* the requester takes a value from its channel, if one is there *)
 | ACancel (c : nat)           (* the context of request c ends *)
@@ -72,12 +81,12 @@ Fixpoint upd {A} (l : list A) (n : nat) (f : A -> A) : list A :=
   | x :: l', S n' => x :: upd l' n' f
   end.
 
-Definition set_table (s : cst) t := {| table := t; chans := chans s; routers := routers s; ordinary := ordinary s; arrived := arrived s; panicked := panicked s |}.
-Definition set_chans (s : cst) c := {| table := table s; chans := c; routers := routers s; ordinary := ordinary s; arrived := arrived s; panicked := panicked s |}.
-Definition set_routers (s : cst) r := {| table := table s; chans := chans s; routers := r; ordinary := ordinary s; arrived := arrived s; panicked := panicked s |}.
+Definition set_table (s : cst) t := {| table := t; chans := chans s; routers := routers s; ordinary := ordinary s; arrived := arrived s; refused := refused s; panicked := panicked s |}.
+Definition set_chans (s : cst) c := {| table := table s; chans := c; routers := routers s; ordinary := ordinary s; arrived := arrived s; refused := refused s; panicked := panicked s |}.
+Definition set_routers (s : cst) r := {| table := table s; chans := chans s; routers := r; ordinary := ordinary s; arrived := arrived s; refused := refused s; panicked := panicked s |}.
 Definition set_pc (s : cst) (k : nat) (pc : rpc) : cst :=
   set_routers s (upd (routers s) k (fun t => {| r_iq := r_iq t; r_pc := pc |})).
-Definition panic (s : cst) := {| table := table s; chans := chans s; routers := routers s; ordinary := ordinary s; arrived := arrived s; panicked := true |}.
+Definition panic (s : cst) := {| table := table s; chans := chans s; routers := routers s; ordinary := ordinary s; arrived := arrived s; refused := refused s; panicked := true |}.
 
 Definition new_chan (i : iqid) : chst :=
   {| c_owner := i; c_buf := None; c_closed := false; c_got := []; c_done := false |}.
@@ -88,11 +97,13 @@ Definition router_step (s : cst) (k : nat) : cst :=
   | Some t =>
       match r_pc t with
       | RStart =>
+          if rreq (r_iq t) then set_pc s k ROrd     (* a get/set answers nothing: ordinary routing *)
+          else
           (* lookup and delete in ONE critical section *)
-          match lookup (fst (r_iq t)) (table s) with
+          match lookup (rid (r_iq t)) (table s) with
           | None => set_pc s k ROrd
           | Some c =>
-              let s1 := set_table s (remove_id (fst (r_iq t)) (table s)) in
+              let s1 := set_table s (remove_id (rid (r_iq t)) (table s)) in
               match nth_error (chans s) c with
               | Some ch => if c_done ch then set_pc s1 k (RCloseOrd c) else set_pc s1 k (RSend c)
               | None => set_pc s1 k ROrd
@@ -123,17 +134,33 @@ Definition router_step (s : cst) (k : nat) : cst :=
           end
       | ROrd =>
           set_pc {| table := table s; chans := chans s; routers := routers s;
-                    ordinary := ordinary s ++ [r_iq t]; arrived := arrived s; panicked := panicked s |} k RDone
+                    ordinary := ordinary s ++ [r_iq t]; arrived := arrived s; refused := refused s; panicked := panicked s |} k RDone
       | RDone => s
       end
   end.
 
+(* the request is accepted: slot length (chans s) is its channel, table[i] := it *)
+Definition register (s : cst) (i : iqid) : cst :=
+  {| table := (i, length (chans s)) :: remove_id i (table s);
+     chans := chans s ++ [new_chan i]; routers := routers s; ordinary := ordinary s;
+     arrived := arrived s; refused := refused s; panicked := panicked s |}.
+(* the request is refused: the caller gets an error and no channel, nothing is registered or
+   written.  The request still takes a slot (so that slot numbers are SendIQ call numbers);
+   the slot is in no table entry and stays empty for ever. *)
+Definition refuse (s : cst) (i : iqid) : cst :=
+  {| table := table s;
+     chans := chans s ++ [new_chan i]; routers := routers s; ordinary := ordinary s;
+     arrived := arrived s; refused := refused s ++ [length (chans s)]; panicked := panicked s |}.
+(* is id i awaiting its response: registered, context not ended *)
+Definition live (s : cst) (i : iqid) : bool :=
+  match lookup i (table s) with
+  | Some c => match nth_error (chans s) c with Some ch => negb (c_done ch) | None => false end
+  | None => false
+  end.
+
 Definition c_step (s : cst) (a : act) : cst :=
   match a with
-  | ARegister i =>
-      {| table := (i, length (chans s)) :: remove_id i (table s);
-         chans := chans s ++ [new_chan i]; routers := routers s; ordinary := ordinary s;
-         arrived := arrived s; panicked := panicked s |}
+  | ARegister i => if live s i then refuse s i else register s i
   | AUnregister c | ACancelDelete c =>
       match a, nth_error (chans s) c with
       | ACancelDelete _, Some ch => if c_done ch then set_table s (remove_chan c (table s)) else s
@@ -142,7 +169,7 @@ Definition c_step (s : cst) (a : act) : cst :=
       end
   | AArrive r =>
       {| table := table s; chans := chans s; routers := routers s ++ [{| r_iq := r; r_pc := RStart |}];
-         ordinary := ordinary s; arrived := arrived s ++ [r]; panicked := panicked s |}
+         ordinary := ordinary s; arrived := arrived s ++ [r]; refused := refused s; panicked := panicked s |}
   | ARouter k => router_step s k
   | ARecv c =>
       set_chans s (upd (chans s) c (fun ch =>
